@@ -80,7 +80,7 @@ def _tlc_job(cfg, idx, tier):
             invs.append("EveryStepReportsEachStep")
             props.append("EveryStepAlwaysSteps")
         base = "AdaptiveLoop"
-        if mode == "save_at":
+        if mode in ("save_at", "every_step"):
             # refinement of the unbounded abstraction whose inductive invariant Apalache discharges (spec/LoopGeometry.tla)
             base = "AdaptiveLoopRefinesGeometry"
             invs.append("GeometryInvariant")
@@ -184,6 +184,8 @@ GEOMETRY_MUTANTS = {
     "beyond-keeps-interp_from-at-step_from": ("  /\\ ifrt' = t1\n", "  /\\ ifrt' = sft\n"),
     "at-branch-without-lower-guard": ('  /\\ pc = "interp" /\\ ~IsBefore /\\ ~IsAfter\n', '  /\\ pc = "interp" /\\ ~IsAfter\n'),
     "clip-to-the-wrong-distance": ("Min2(rdt, t1 - rsft)", "Min2(rdt, t1 - rsft + 1)"),
+    # the pinned tree's `while step_from.t < t1` (repaired by fix 578a80a): an iteration that takes no step becomes reachable
+    "every-step-while-test-without-eps": ("  /\\ pc' = IF IsBefore THEN \"loop_enter\" ELSE \"done\"\n", "  /\\ pc' = IF sft < t1 THEN \"loop_enter\" ELSE \"done\"\n"),
 }
 
 
@@ -214,7 +216,7 @@ def _geometry():
             raise tlc.MachineryError(f"vacuous proof obligation: mutated LoopGeometry ({name}) still passes the inductive step")
         rejected += 1
     GEOMETRY_INFO.update(tool="apalache-mc 0.58 (SMT, unbounded integers)", obligations=len(obligations), mutants_rejected=rejected, seconds=round(secs, 1),
-                         scope="all checkpoint layouts and lengths, all eps >= 0, clip on/off, any controller/estimator, any number of attempts (save_at mode)")
+                         scope="all checkpoint layouts and lengths, all eps >= 0, clip on/off, any controller/estimator, any number of attempts (save_at and save-every-step drivers)")
     return out
 
 
